@@ -23,35 +23,47 @@ Record stask := {
   s_res : nat;                  (* the allocated resource *)
   s_deps : list sdep;           (* own + inherited + inverted 'precedes' *)
   s_pin : option Z;             (* start written on the task itself *)
-  s_lb : Z                      (* start inherited from the nearest dated container, else 0 *)
+  s_lb : Z;                     (* start inherited from the nearest dated container, else 0 *)
+  s_limits : list nat           (* limits of this task and of its ancestors *)
 }.
 
-Record sres := { sr_work : nat -> bool; sr_eff : Q }.                 (* efficiency > 0 *)
+Record sres := { sr_work : nat -> bool; sr_eff : Q;                   (* efficiency > 0 *)
+                 sr_limits : list nat }.                              (* limits of the resource and of its groups *)
+
+(* a limit counts BOOKINGS (one per resource and slot, whatever part of the slot is used), as Limit.inc does *)
+Record slimit := { sl_value : nat; sl_period : nat -> Z; sl_only : option nat }.
 
 Record sproject := {
   sp_tasks : list stask;
   sp_res : list sres;
+  sp_limits : list slimit;
   sp_upper : nat;               (* last admissible slot *)
   sp_G : Z                      (* slot length in seconds, > 0 *)
 }.
 
 Definition dstask : stask := {| s_leaf := true; s_leaves := []; s_prio := 0%Z; s_mile := true; s_effort := 0; s_res := 0%nat;
-                                s_deps := []; s_pin := None; s_lb := 0%Z |}.
-Definition dsres : sres := {| sr_work := fun _ => false; sr_eff := 1 |}.
+                                s_deps := []; s_pin := None; s_lb := 0%Z; s_limits := [] |}.
+Definition dsres : sres := {| sr_work := fun _ => false; sr_eff := 1; sr_limits := [] |}.
+Definition dslim : slimit := {| sl_value := 0%nat; sl_period := fun _ => 0%Z; sl_only := None |}.
 Definition stask_of (p : sproject) (t : nat) : stask := nth t (sp_tasks p) dstask.
 Definition sres_of (p : sproject) (r : nat) : sres := nth r (sp_res p) dsres.
+Definition slim_of (p : sproject) (l : nat) : slimit := nth l (sp_limits p) dslim.
 
 (* ------------------------------------------------------------------ state *)
 Record sstate := {
   cells : nat -> nat -> cell;                   (* resource -> slot -> ledger cell *)
   splaced : list (nat * (Z * Z));               (* leaf task -> (start, end) in seconds, newest first *)
-  stouched : list (nat * nat)                   (* cells written so far (for enumerating the ledger) *)
+  stouched : list (nat * nat);                  (* cells written so far (for enumerating the ledger) *)
+  sbooked : list (nat * nat * nat)              (* booking events (task, resource, slot), newest first: what limits count *)
 }.
-Definition sinit : sstate := {| cells := fun _ _ => empty; splaced := []; stouched := [] |}.
+Definition sinit : sstate := {| cells := fun _ _ => empty; splaced := []; stouched := []; sbooked := [] |}.
 
 Definition set_cell (st : sstate) (r s : nat) (c : cell) : sstate :=
   {| cells := fun r' s' => if Nat.eqb r' r && Nat.eqb s' s then c else cells st r' s'; splaced := splaced st;
-     stouched := (r, s) :: stouched st |}.
+     stouched := (r, s) :: stouched st; sbooked := sbooked st |}.
+
+Definition note_booking (st : sstate) (t r s : nat) : sstate :=
+  {| cells := cells st; splaced := splaced st; stouched := stouched st; sbooked := (t, r, s) :: sbooked st |}.
 
 Fixpoint slookup (t : nat) (l : list (nat * (Z * Z))) : option (Z * Z) :=
   match l with
@@ -75,7 +87,7 @@ Definition sdates (p : sproject) (st : sstate) (t : nat) : option (Z * Z) :=
   if s_leaf (stask_of p t) then sleaf_dates st t else sspan st (s_leaves (stask_of p t)).
 
 Definition splace (st : sstate) (t : nat) (d : Z * Z) : sstate :=
-  {| cells := cells st; splaced := (t, d) :: splaced st; stouched := stouched st |}.
+  {| cells := cells st; splaced := (t, d) :: splaced st; stouched := stouched st; sbooked := sbooked st |}.
 
 (* ------------------------------------------------------------------ rounding *)
 (* Python's round(): to the nearest integer, ties to the even one *)
@@ -108,6 +120,23 @@ Definition sbound (p : sproject) (st : sstate) (t : nat) : Z :=
                       (s_deps (stask_of p t)) (s_lb (stask_of p t))
   end.
 
+(* ------------------------------------------------------------------ limits (as in Model/Sched.v) *)
+Definition scounts (p : sproject) (l : nat) (b : nat * nat * nat) : bool :=
+  let '(t, r, _) := b in
+  (existsb (Nat.eqb l) (sr_limits (sres_of p r)))
+  || (existsb (Nat.eqb l) (s_limits (stask_of p t))
+      && match sl_only (slim_of p l) with None => true | Some r' => Nat.eqb r' r end).
+
+Definition susage (p : sproject) (st : sstate) (l : nat) (k : Z) : nat :=
+  length (filter (fun b => scounts p l b && Z.eqb (sl_period (slim_of p l) (snd b)) k) (sbooked st)).
+
+Definition slimit_ok (p : sproject) (st : sstate) (l : nat) (s : nat) : bool :=
+  (susage p st l (sl_period (slim_of p l) s) <? sl_value (slim_of p l))%nat.
+
+Definition slimits_of (p : sproject) (t r : nat) : list nat :=
+  sr_limits (sres_of p r)
+  ++ filter (fun l => match sl_only (slim_of p l) with None => true | Some r' => Nat.eqb r' r end) (s_limits (stask_of p t)).
+
 (* the slot walk.  off: seconds of the first slot that lie before the bound (applied to the first slot in
    which the task books); done: effort-seconds credited so far; start: set by the first booking *)
 Fixpoint swalk (p : sproject) (t r : nat) (e need off : Q) (fuel slot : nat) (done : Q) (start : option Z) (st : sstate)
@@ -121,7 +150,8 @@ Fixpoint swalk (p : sproject) (t r : nat) (e need off : Q) (fuel slot : nat) (do
         let c1 := if Qeq_bool done 0 then step G c0 (Offset off) else c0 in
         let a := G - used c1 in
         let c2 := step G c1 (Book t None) in
-        if Qle_bool a tol_avail || Nat.eqb (length (entries c2)) (length (entries c1)) then
+        if Qle_bool a tol_avail || Nat.eqb (length (entries c2)) (length (entries c1))
+           || negb (forallb (fun l => slimit_ok p st l slot) (slimits_of p t r)) then
           swalk p t r e need off fuel' (S slot) done start (set_cell st r slot c1)       (* nothing bookable here *)
         else
           let start' := match start with
@@ -134,8 +164,8 @@ Fixpoint swalk (p : sproject) (t r : nat) (e need off : Q) (fuel slot : nat) (do
             let needed := Qmin ((need - done) / e) G in
             let c3 := step G c2 (Finish t needed) in
             let endt := (Z.of_nat slot * sp_G p + round_half_even (used c1 + needed))%Z in
-            (set_cell st r slot c3, Some (start', endt))
-          else swalk p t r e need off fuel' (S slot) done' (Some start') (set_cell st r slot c2)
+            (note_booking (set_cell st r slot c3) t r slot, Some (start', endt))
+          else swalk p t r e need off fuel' (S slot) done' (Some start') (note_booking (set_cell st r slot c2) t r slot)
       else swalk p t r e need off fuel' (S slot) done start st
   end.
 
